@@ -149,8 +149,19 @@ fn forward_case(i: u64, seed: u64, out: &mut CaseOut) {
                                 m.remove(&prop);
                             }
                         }
-                        // the recorded old value carries a marker: it is local undo information
-                        ops.push(Operation::Update { uuid: u, property: prop, old_value: Some(format!("{MARK_OLD}-{}", rng.below(100))), value, timestamp: t });
+                        // the recorded old value is local undo information and must have no
+                        // influence on what is sent: usually a marker, sometimes absent, sometimes
+                        // (an update that re-asserts a value / removes an absent property) equal
+                        // to the new value
+                        let old_value = match rng.below(6) {
+                            0 => None,
+                            1 => value.clone(),
+                            _ => Some(format!("{MARK_OLD}-{}", rng.below(100))),
+                        };
+                        if old_value == value {
+                            out.count("updates_with_old_equal_new", 1);
+                        }
+                        ops.push(Operation::Update { uuid: u, property: prop, old_value, value, timestamp: t });
                     }
                 }
             }
